@@ -98,7 +98,7 @@ def run_case(case, workdir):
     V += O.check_history(ref, scn, props=("c08",))
     base_key = [scn["_schedule_mode"], scn["target"]["kind"], scn["xp"], scn["dtype"]]
     twins = case.get("twins") or ["checkpoint", "n_final", "choice", "resume"]
-    if scn.get("first_call"):
+    if scn.get("first_call") or scn.get("aspire_first_call"):
         # a sampler object that already served another sample() call is driven directly (no Aspire-level checkpoint plumbing)
         twins = [t_ for t_ in twins if t_ in ("n_final", "choice")]
         probes["sampler_object_reused"] = 1
